@@ -12,5 +12,45 @@ def fill(claim, na):
         TB + "Modelled, not verified: IEEE rounding of the Python arithmetic; the spec formulas are hand-transcribed from PDG/fact.rst; the Kronecker-delta property of the basis at nodes is observed here and proved under C19.",
         "DESIGN.md 6/C02",
     )
-    for p in ["C01", "C03", "C04", "C05", "C06", "C07", "C08", "C09", "C10", "C11", "C12", "C13", "C14", "C15", "C16", "C17", "C18", "C19", "C20"]:
+    claim(
+        "C06",
+        "proof",
+        "Lean 4 theorems over a Rat-with-infinity model of the threshold walls / nf_default / update_fns + exact-input correspondence",
+        "nf = 3 + #(matching scales <= Q2) for every Q2 >= 0 and every monotone wall list (so equality already counts, and only the count matters); fixed-flavour schemes give nf = NfFF at every Q2 for any masses/ratios; unsorted thresholds are rejected. Tied to the real Combiner.nf at, one ulp below and above the walls the Runner actually built, and to update_fns exhaustively.",
+        TB + "Modelled, not verified: numpy.digitize and the IEEE product m^2*k^2 (compared to 2 ulp); that beta0 in the scale-variation terms uses the same nf is observed on real runs.",
+        "DESIGN.md 6/C06",
+    )
+    claim(
+        "C07",
+        "proof",
+        "Lean 4 theorems about the Combiner model's kernel lists (list equalities lifted to every operator entry for an arbitrary convolution parameter) + Combiner correspondence",
+        "FONLL full = massless ++ massive, ZM total = light, total = light ++ massive parts of c,b,t (all as kernel-list equalities for every configuration), FFNS NfFF=3 additivity for every operator entry and any coefficient function, positivity partition of get_weight/get_fl11_weight; the model's kernel list is compared with Combiner.collect_elems over the configuration lattice on every run; real runs check the same relations numerically.",
+        TB + "Known finding F15: the literal 'total = light+charm+bottom+top' fails for NfFF>=4 (heavylight double counting); the theorem ffns_total_general states what holds instead. The lift of the positivity partition from the weight functions to every generator is observed, not proved.",
+        "DESIGN.md 6/C07",
+    )
+    claim(
+        "C08",
+        "proof",
+        "Lean 4 theorems (FFN0 kernels mirror FFNS kernels weight by weight) + Combiner correspondence; decay of coefficient-function differences observed on real FFNS/FFN0 runs",
+        "PARTIAL. Proved for every configuration: the asymptotic generators (heavy, missing, intrinsic) produce kernels with exactly the parton weights of their massive counterparts, so FFNS-FFN0 reduces to differences of partonic coefficient functions. The order-by-order power-like decay of those differences (LeProHQ, adani, closed forms) is not provable from the repository's text: it is checked on real runs over Q2/m2 = 1e2..1e5 per order.",
+        TB + "External compiled libraries LeProHQ/adani are parameters; the decay test is exploration-grade support.",
+        "DESIGN.md 6/C08",
+    )
+    claim(
+        "C12",
+        "proof",
+        "Lean 4 theorems (isospin on weights = rotation of the PDF, for any kernel list and convolution parameter; named-target table) + Combiner/update_target correspondence",
+        "For every kernel list, every coefficient function/order/grid index and all rational Z, A: contracting the (Z,A) operator with a PDF equals contracting the proton operator with the (Z u+(A-Z) d)/A mixtures; neutron swaps u and d; the named-target table equals the documented values. Real runs compare target and rotated proton operators entry by entry (including FFN0 schemes where kernels share weight dicts).",
+        TB + "Modelled: the Combiner's kernel list (corresponded on every run).",
+        "DESIGN.md 6/C12",
+    )
+    claim(
+        "C13",
+        "proof",
+        "Lean 4 theorems on the weight model (NC-EM factorisation in eta, e+/e- polarisation flip, CC charge conjugation for all three weight builders and arbitrary CKM/mask, equal-charge exchange) + weight correspondence + pairs of real runs",
+        "All four relations are proved for the weight maps for every rational parameter value; linearity of the operator in the weights (opEntry) lifts them to outputs; pairs of real runs confirm them on whole operators.",
+        TB + "The lift from weight maps to complete kernel lists is by linearity and is additionally observed on real runs; NC->EM is proved as NC-EM = eta*(A+eta*B).",
+        "DESIGN.md 6/C13",
+    )
+    for p in ["C01", "C03", "C04", "C05", "C09", "C10", "C11", "C14", "C15", "C16", "C17", "C18", "C19", "C20"]:
         na(p, "check not yet built in this round (design in DESIGN.md section 6); will be claimed once its Lean model, theorems and correspondence exist")
